@@ -216,7 +216,8 @@ pub enum Mode<'a> {
 #[derive(Debug)]
 pub enum SchedError {
     ReplayDivergence(String),
-    Budget,
+    /// step budget exhausted: the choices made so far
+    Budget(Vec<Choice>),
     Stuck(String),
 }
 
